@@ -210,7 +210,7 @@ pub fn def() -> CheckDef {
             Box::new(ReplayOnly { name: "fuzz-bytes", check: check_raw }),
             Box::new(EnumSection { name: "exhaustive", rule: "all short buffers x all offsets", enumerate: enum_buffers, check: check_buffer, exhaustive: true }),
             Box::new(EnumSection { name: "boundary-255", rule: "names around 255 bytes", enumerate: enum_long, check: check_soup, exhaustive: true }),
-            Box::new(PropSection { name: "soups", rule: "random name soups", strategy: soup_strategy, cases: (60_000, 2_000_000), check: check_soup }),
+            Box::new(PropSection { name: "soups", rule: "random name soups", strategy: soup_strategy, cases: (300_000, 4_000_000), check: check_soup }),
         ],
     }
 }
